@@ -606,10 +606,20 @@ def r14_saved_flags_verbatim(ctx, rule):
         ctx.ok(rule, q, 'rule_name, skip_brute and skip_case are saved as given')
 
 
+def r15_no_generator_reuse(ctx, rule):
+    """The two passes over grammar.txt each read the whole file: no one-shot iterator is shared between them.  (Seed C14-k built
+    `entries = (line.rstrip().split('\\t') for line in file)` once for both passes: with --skip_brute on a ruleset without a Markov
+    line the first pass exhausts it, file.seek(0) does not revive it, and the ruleset loads with no base structure at all.)"""
+    from .common import no_generator_reuse
+    no_generator_reuse(ctx, rule, ['lib_guesser/'], 0,
+                       'a finished generator stays finished: rewinding the file underneath does not make it yield again, so the second '
+                       'pass reads nothing whenever the first one ran to the end of the file')
+
+
 def rules(tier):
     return [('C14.R1', r1_rewind), ('C14.R2', r2_renormalisation), ('C14.R3', r3_skip_case),
             ('C14.R4', r4_restored_flags_live), ('C14.R5', lambda c, r: c08.r5_sav_keys(c, r, sections=('rule_info',), floor=4)), ('C14.R6', c01.r8_uniform_scale), ('C14.R7', r7_probabilities_immutable), ('C14.R8', r8_loader_stateless), ('C14.R9', c08.r11_restore_is_verbatim),
-            ('C14.R10', _seeding), ('C14.R11', r11_loaders_read_only), ('C14.R12', r12_options_not_rebound), ('C14.R13', r13_options_forwarded), ('C14.R14', r14_saved_flags_verbatim)]
+            ('C14.R10', _seeding), ('C14.R11', r11_loaders_read_only), ('C14.R12', r12_options_not_rebound), ('C14.R13', r13_options_forwarded), ('C14.R14', r14_saved_flags_verbatim), ('C14.R15', r15_no_generator_reuse)]
 
 
 META = {
